@@ -41,8 +41,15 @@ def run(tier):
             c.sc, c.profile, c.mode, c.seed = sc, "oneshot_burst", m, seed * 1000 + k
             cases.append(c)
 
+    for k in range(30 if tier == "quick" else 600):
+        sc = gen.gen_shared_signal(seed * 1000 + k)
+        for m in ("loop", "dispatch"):
+            c = cc.Case()
+            c.sc, c.profile, c.mode, c.seed = sc, "shared_signal", m, seed * 1000 + k
+            cases.append(c)
+
     def oracle(case):
-        return model_events.check_c03(case, stats, conservation=(case.profile == "sources"))
+        return model_events.check_c03(case, stats, conservation=(case.profile in ("sources", "shared_signal")))
 
     def relevant(case):
         return sum(1 for r in case.recs if r.k == "V" and r.slot != 0) >= 3
